@@ -22,7 +22,9 @@ KEYS = ['theta', 'thetadown4', 'sheardown4', 'shear2', 'omegadown4', 'omega2',
 
 
 def cases(tier, sd):
-    return [c for c in c04.cases(tier, sd + 31) if not c['vacuum']]
+    # vacuum members (gauge-transformed Minkowski / Kasner) are run with the
+    # vacuum flag set: the kinematics of the Eulerian observers do not depend on it
+    return list(c04.cases(tier, sd + 31))
 
 
 def s_to_st(b, f3):
@@ -41,9 +43,12 @@ def _run_case(spec):
     grids, _ = engine.grid_plan(spec)
     vals = []
     spec2 = dict(spec, vacuum=True)   # no matter input needed or given
+    # the algebraic keys (gdown4, ...) first or last: gup4 & co. are reached
+    # with and without gdown4 in the cache
+    first = bool((spec['member'].get('seed', 0) + spec['order'] // 2) % 2)
     for g in grids:
-        ex, rel = c04.evaluate(spec2, g, [], rel_kw=dict(vacuum=False))
-        code = engine.eval_keys(rel, ALG + KEYS[:-1])
+        ex, rel = c04.evaluate(spec2, g, [], rel_kw=dict(vacuum=bool(spec['vacuum'])))
+        code = engine.eval_keys(rel, (ALG + KEYS[:-1]) if first else (KEYS[:-1] + ALG))
         a = code['accelerationdown4']
         if isinstance(a, Exception):
             code['acc_dot_n'] = a
@@ -74,7 +79,8 @@ def _run_case(spec):
              'acc_dot_n': G4, 'accelerationdown4': G4, 'accelerationup4': G4, 'theta': K,
              'thetadown4': K, 'sheardown4': K, 'shear2': K * K}
     engine.compare(res, spec, vals, KEYS, algebraic=ALG,
-                   tags=[c04.mclass(spec['member']), spec['mode'], spec['order']],
+                   tags=[c04.mclass(spec['member']), spec['mode'], spec['order'],
+                         'vac' if spec['vacuum'] else 'nonvac', 'alg-first' if first else 'alg-last'],
                    scale_hints=hints)
     return res
 
